@@ -210,11 +210,27 @@ Print Assumptions c07_dup_reply_fed_twice_unconditional_refuted.
     Recv error [LFeed (FErr _)]); [cancel_ids env] = the ids named by the CancelRequest calls [LCallCancel _ id];
     [fed_msgs env] = the members fed; [cancel_named env p] = some fed member with params p has a non-empty id (after
     fixID) in cancel_ids env;
-    [mon_cancel_cause env os] = stop_in env, or cancel_named env p for every p of cancelled_params os. *)
+    [before_close os] = the observations of os before its first [OClose] (stopLocked closes the channel before it
+    cancels any context);
+    [mon_cancel_cause env os] = cancel_named env p for every p of cancelled_params (before_close os), and: stop_in env,
+    or cancel_named env p for every p of cancelled_params os. *)
 Theorem c07_mon_cancel_cause_sound : forall c tr s oss, run (init_of c) tr = Some (s, oss) ->
   mon_cancel_cause (env_of tr) (concat oss) = true.
 Proof. exact SrvMonCancel.mon_cancel_cause_sound. Qed.
 Print Assumptions c07_mon_cancel_cause_sound.
+
+(* a context reported as cancelled before the first close of the channel (order of the observations only) was
+   cancelled by CancelRequest: some fed member with the handler's params has a non-empty id that a CancelRequest call
+   names *)
+Theorem c07_cancelled_before_close_named : forall c tr s oss p, run (init_of c) tr = Some (s, oss) ->
+  In p (cancelled_params (before_close (concat oss))) -> cancel_named (env_of tr) p = true.
+Proof. exact SrvMonCancel.cancelled_before_close_named. Qed.
+Print Assumptions c07_cancelled_before_close_named.
+
+Theorem c07_before_close_spec : forall os o, In o (before_close os) <->
+  exists pre post, os = pre ++ o :: post /\ ~ In OClose pre /\ o <> OClose.
+Proof. exact SrvMonCancel.before_close_spec. Qed.
+Print Assumptions c07_before_close_spec.
 
 (* spelled out: a handler sees its context cancelled only if the environment stopped the server (Stop, or a Recv error
    or EOF), or called CancelRequest with the non-empty id of a fed member that carries the handler's params *)
